@@ -138,6 +138,9 @@ ATTR_CLASSES = [
 # name -> (module file, lean list it is dumped in))
 PARSER_CLASSES = [
     ('Parser.py', 'parser', 'AdvancedHTMLParser', ['handle_endtag'], ('tagName',), {}, {}),
+    ('Validator.py', 'validator', 'ValidatingAdvancedHTMLParser', ['handle_endtag'], ('tagName',),
+     {('exceptions', 'InvalidCloseException'): 'HTMLValidationException',
+      ('exceptions', 'MissedCloseException'): 'HTMLValidationException'}, {}),
 ]
 # special methods a PARSER_CLASSES class must not define (`self.f` is then the plain attribute)
 PARSER_CLASS_FORBIDDEN = ('__getattr__', '__getattribute__', '__setattr__')
@@ -687,6 +690,9 @@ class _FunTranslator(object):
             if isinstance(f, ast.Name):
                 if not module_scope and f.id in self.locals:
                     return '(.callv (.var %s) %s)' % (lean_str(f.id), args)
+                if self.pcls is not None and f.id in self.pcls['exc']:
+                    # instantiating a library exception class (its `__init__` is taken to return normally: PyAst.callValue)
+                    return '(.callv (.excClass %s) %s)' % (lean_str(f.id), args)
                 if f.id in self.imported:
                     return '(.call %s %s)' % (lean_str(self.imported[f.id]), args)
                 if f.id in self.earlier:
